@@ -548,6 +548,31 @@ fn main() {
         println!("NONE tried={}", progs.len());
         return;
     }
+    if args.get(1).map(|s| s.as_str()) == Some("schedvm-search") || args.get(1).map(|s| s.as_str()) == Some("schedvm-run") {
+        // property C11 on the NATIVE VM (SchedulerAudioWorker::on_sample driven by the real local-buffer driver):
+        // small programs whose output is a closed form of "every task runs exactly once at its sample, before dsp"
+        let progs = schedvm_programs();
+        let only: Option<usize> = args.get(2).and_then(|s| s.parse().ok());
+        for (i, (src, expect, desc)) in progs.iter().enumerate() {
+            if let Some(o) = only { if o != i { continue; } }
+            let got = std::panic::catch_unwind(|| run_vm_sched(src, expect.len()));
+            let bad = match got {
+                Ok(Ok(v)) => if v == *expect { None } else { Some(format!("got {v:?} expected {expect:?}")) },
+                Ok(Err(e)) => Some(format!("rejected: {e}")),
+                Err(_) => Some("the VM scheduler panicked".to_string()),
+            };
+            if args[1] == "schedvm-run" {
+                match bad { Some(c) => println!("FAILS SchedulerAudioWorker::on_sample::ensures[{desc}] {c}"), None => println!("HOLDS") }
+                return;
+            }
+            if let Some(c) = bad {
+                println!("FOUND index={i} value={desc:?} clause=SchedulerAudioWorker::on_sample::ensures[each task runs exactly once at the sample equal to its time, before dsp] {c}");
+                return;
+            }
+        }
+        println!("NONE tried={}", progs.len());
+        return;
+    }
     if args.get(1).map(|s| s.as_str()) == Some("branch-state") {
         // finding F8 (C05, also C03/C02): stateful calls inside the branches of an `if`.  Each program is run in a
         // child process because the VM may corrupt its heap (the parent reports a crash as a failure).
